@@ -78,6 +78,16 @@ pub enum Fault {
 }
 
 #[derive(Clone, Copy, Debug, PartialEq, Eq, Serialize, Deserialize, Hash)]
+pub enum Craft {
+    PrefixEnc,
+    PrefixPkR,
+    PrefixInfo,
+    PrefixAad,
+    Zeros,
+    Ones,
+}
+
+#[derive(Clone, Copy, Debug, PartialEq, Eq, Serialize, Deserialize, Hash)]
 pub enum OpenApi {
     Alloc,
     InPlace,
@@ -144,9 +154,21 @@ pub enum Ev {
     StripZerosProbe { r: usize, from: usize },
     /// single-shot open with explicit (possibly hostile) inputs, compared with setup_receiver + open
     SingleShotOpenRaw { cfg: Cfg, kr: usize, ks: Option<usize>, enc: EncSrc, ct: B, aad: B, tag: Option<B> },
+    /// content-dependent traffic: the plaintext is chosen (from the model's keystream at the sender's
+    /// position) so that the *ciphertext* body has a given shape: it begins with the encapsulated key,
+    /// the recipient public key, the info string or the aad, or is all 0x00 / all 0xff
+    SealCrafted { c: usize, craft: Craft, len: usize, aad: B, inplace: bool },
+    /// PskBundle::new with slices of these lengths (taken from one lazily mapped zero buffer, never
+    /// read): lengths at and beyond 2^31 / 2^32 where products and sums of lengths wrap
+    PskLenProbe { psk_len: u64, id_len: u64 },
     /// C18: event `ev` of world `w`, executed on worker thread `t` (token passing: exactly one worker
     /// runs at any time, the others are parked)
     On { w: usize, t: usize, inner: Box<Ev> },
+    /// C18: like `On`, but while that operation is suspended at its `at`-th seam call (a draw from the
+    /// caller's RNG, an AEAD call of a shimmed suite) the `nested` operations (`On` events of *other*
+    /// worlds) run - on other workers, or re-entrantly on the same worker thread if they name it. If
+    /// the operation makes fewer seam calls they run right after it.
+    OnNested { w: usize, t: usize, inner: Box<Ev>, at: u32, nested: Vec<Ev> },
 }
 
 impl Ev {
@@ -175,7 +197,10 @@ impl Ev {
             Ev::WriteExactProbe { .. } => "WriteExactProbe",
             Ev::PskProbe { .. } => "PskProbe",
             Ev::RawOpen { .. } => "RawOpen",
+            Ev::SealCrafted { .. } => "SealCrafted",
+            Ev::PskLenProbe { .. } => "PskLenProbe",
             Ev::On { .. } => "On",
+            Ev::OnNested { .. } => "OnNested",
             Ev::RejectBurst { .. } => "RejectBurst",
             Ev::ExportBurst { .. } => "ExportBurst",
             Ev::VolumePump { .. } => "VolumePump",
